@@ -201,6 +201,52 @@ func ruleRegistry(c *Ctx, r *Rep) {
 		}
 	}
 	r.Check(len(onlyKnown) == 0, "new-entities-registered", c.FnPos(open), "no registry is written only for aliases that are already known", strings.Join(uniq(onlyKnown), "; "))
+	// one entity, one name: a function that files an entity in several of the backend's registries uses the same key
+	// for all of them (the getters look all of them up under the alias the planner uses)
+	for _, f := range c.Funcs {
+		keys := map[string][]string{} // origin of the key -> registries filed under it
+		var first token.Pos
+		for _, b := range f.Blocks {
+			for _, ins := range b.Instrs {
+				mu, ok := ins.(*ssa.MapUpdate)
+				if !ok {
+					continue
+				}
+				field := mapFieldOf(mu.Map)
+				if field == nil || !isStringish(mu.Key.Type()) {
+					continue
+				}
+				owner := false // a registry one of the getters reads under the name handed to it: one record per entity
+				for _, gf := range getters {
+					if gf == field {
+						owner = true
+					}
+				}
+				if mt, ok := field.Type().Underlying().(*types.Map); ok {
+					if _, isList := mt.Elem().Underlying().(*types.Slice); isList {
+						owner = false // an index from one entity to many (the subscribers of an issuer), keyed by the other end
+					}
+				}
+				if !owner {
+					continue
+				}
+				if first == token.NoPos {
+					first = mu.Pos()
+				}
+				o := strings.Join(pv.Origins(mu.Key), ",")
+				keys[o] = append(keys[o], field.Name())
+			}
+		}
+		if len(keys) == 0 {
+			continue
+		}
+		var desc []string
+		for o, fields := range keys {
+			desc = append(desc, strings.Join(uniq(fields), "+")+" under "+o)
+		}
+		sort.Strings(desc)
+		r.Check(len(keys) == 1, "one-key|"+c.FuncKey(f), c.Pos(first), "all registries written in one function are keyed by the same value", strings.Join(desc, "; "))
+	}
 }
 
 func derefNamed(t types.Type) (*types.Named, bool) {
@@ -489,9 +535,54 @@ func ruleExportParts(c *Ctx, r *Rep) {
 		}
 		r.Check(found, "renders|"+part, c.FnPos(put), "the "+part+" is rendered to PEM below PutBuildArtifact", sprintf("%v", found))
 	}
+	// each part is rendered under no other condition than its own presence: a file that holds a key and the request
+	// made from it keeps both
+	pv := c.newProv()
+	splitLast := func(o string) (string, string) {
+		i := strings.LastIndex(o, ".")
+		if i < 0 || strings.ContainsAny(o[i:], "()[]|") {
+			return "", ""
+		}
+		return o[:i], o[i+1:]
+	}
+	for _, part := range names {
+		n := 0
+		for f := range reach {
+			if !strings.Contains(f.Pkg.Pkg.Path(), "filesystem") {
+				continue
+			}
+			for _, ci := range callsIn(f) {
+				if !strings.HasSuffix(calleeFullName(ci), want[part]) {
+					continue
+				}
+				ro := pv.Origins(ci.Common().Args[0])
+				if len(ro) != 1 {
+					continue
+				}
+				base, field := splitLast(ro[0])
+				if base == "" {
+					continue
+				}
+				n++
+				var foreign []string
+				for _, g := range guardsOf(ci.Block()) {
+					x, _, ok := nilTestOf(g.Cond, g.Truth)
+					if !ok {
+						continue
+					}
+					for _, o := range pv.Origins(x) {
+						if b2, f2 := splitLast(o); b2 == base && f2 != field {
+							foreign = append(foreign, "the presence of "+f2+" decides whether "+field+" is rendered")
+						}
+					}
+				}
+				foreign = uniq(foreign)
+				r.Check(len(foreign) == 0, sprintf("own-condition|%s|%s#%d", part, c.FuncKey(f), n), c.Pos(ci.Pos()), "the "+part+" is rendered whenever it is present, whatever else the artifact holds", strings.Join(foreign, "; "))
+			}
+		}
+	}
 	// the bytes written are the bytes of a buffer, and the function that writes them renders the parts (itself or through
 	// what it calls)
-	pv := c.newProv()
 	written := false
 	for f := range reach {
 		for _, ci := range callsIn(f) {
